@@ -196,6 +196,22 @@ pub fn programs() -> Vec<(&'static str, String)> {
     ] {
         extra.push(("slot grid: wildcard read as a variable", format!("{PRE}pub fn main(x: u8) -> u8 {{ {body} }}\n")));
     }
+    // ---- values with many columns that no pattern discriminates (the exhaustiveness check must not
+    //      enumerate the constructors of columns that are only bound)
+    {
+        let e12 = vec!["E"; 12].join(", ");
+        let v12 = vec!["E::C(x, true)"; 12].join(", ");
+        let b40 = vec!["bool"; 40].join(", ");
+        let t40 = vec!["Q"; 40].join(", ");
+        for body in [
+            format!("let t: ({e12}) = ({v12}); match t {{ a => x }}"),
+            format!("let t: ({e12}) = ({v12}); let (a, b) = (t, t); x"),
+            format!("let t: ({b40}) = ({t40}); match (t, x) {{ (a, 0) => 1u8, (b, c) => c }}"),
+            format!("let mut n = x; for (a, b) in [(({v12}), 1u8)] {{ n = n + b; }} n"),
+        ] {
+            extra.push(("slot grid: many columns that are only bound", format!("{PRE}pub fn main(x: u8) -> u8 {{ {body} }}\n")));
+        }
+    }
     out.extend(extra);
     out
 }
